@@ -113,7 +113,18 @@ type op struct {
 	// does); then even the time field must be byte-for-byte what it is when the record is logged alone
 	direct  bool
 	instant time.Time
+	// poison > 0: the record carries a value that panics while it is rendered (a nil pointer whose MarshalText
+	// dereferences it, a buggy Marshaler or Stringer), at top level (1) or inside a group (2). The caller recovers. What
+	// becomes of that record is its own business (nothing, or one Write); every other record is written as if alone.
+	poison int
 }
+
+type panicky struct{ why string }
+
+func (p panicky) MarshalText() ([]byte, error) { panic("value: MarshalText " + p.why) }
+func (p panicky) MarshalJSON() ([]byte, error) { panic("value: MarshalJSON " + p.why) }
+func (p panicky) String() string               { panic("value: String " + p.why) }
+func (p panicky) Error() string                { panic("value: Error " + p.why) }
 
 type scenario struct {
 	kind       int
@@ -126,6 +137,7 @@ type scenario struct {
 	spins      int
 	failEvery  int
 	panicEvery int
+	poisoned   bool
 }
 
 func (sc *scenario) opts() *logger.Options {
@@ -187,6 +199,8 @@ func genScenario(t *rapid.T) *scenario {
 	base := lm.GenInstant().Draw(t, "baseInstant")
 	zones := []*time.Location{base.Location(), time.FixedZone("", 8*3600)}
 	g := rapid.IntRange(2, 8).Draw(t, "goroutines")
+	poisoned := rapid.IntRange(0, 3).Draw(t, "someValuesPanicWhenRendered") == 0
+	sc.poisoned = poisoned
 	for gi := 0; gi < g; gi++ {
 		n := rapid.IntRange(5, 30).Draw(t, "steps")
 		var script []op
@@ -210,6 +224,12 @@ func genScenario(t *rapid.T) *scenario {
 				o.direct = true
 				shift := rapid.SampledFrom([]time.Duration{0, 0, time.Second, -time.Second, 999 * time.Millisecond, time.Minute, time.Hour, 24 * time.Hour}).Draw(t, "shift")
 				o.instant = base.Add(shift).In(zones[rapid.IntRange(0, 1).Draw(t, "zone")])
+			}
+			if poisoned && rapid.IntRange(0, 7).Draw(t, "poison") == 0 {
+				o.poison = rapid.IntRange(1, 2).Draw(t, "poisonWhere")
+				if !o.direct {
+					o.direct, o.instant = true, base
+				}
 			}
 			script = append(script, o)
 		}
@@ -235,6 +255,12 @@ func handle(h logger.Handler, o op) {
 	pc, _, _ := lm.CallerPC()
 	r := slog.NewRecord(o.instant, o.level, o.msg(), pc)
 	r.AddAttrs(lm.Attrs(o.attrs)...)
+	switch o.poison {
+	case 1:
+		r.AddAttrs(slog.Any("bad", panicky{"at top level"}))
+	case 2:
+		r.AddAttrs(slog.Group("req", slog.String("before", "x"), slog.Group("at", slog.Any("bad", &panicky{"inside a group"}))))
+	}
 	_ = h.Handle(lm.CtxFor(o.form, o.msg()), r)
 }
 
@@ -262,6 +288,8 @@ type outcome struct {
 	bigLine      bool
 	ownTime      bool
 	writes       int
+
+	poisonWritten int
 }
 
 func runScenario(sc *scenario) (string, outcome) {
@@ -308,18 +336,22 @@ func runScenario(sc *scenario) (string, outcome) {
 		return strings.Join(mon.problems, "; "), oc
 	}
 	byID := map[string]op{}
-	enabled := 0
+	enabled, enabledPoisoned := 0, 0
 	for _, s := range sc.scripts {
 		for _, o := range s {
 			byID[o.id] = o
 			if o.level >= sc.threshold {
-				enabled++
+				if o.poison > 0 {
+					enabledPoisoned++
+				} else {
+					enabled++
+				}
 			}
 		}
 	}
 	oc.writes = len(mon.writes)
-	if len(mon.writes) != enabled {
-		return fmt.Sprintf("%d Write calls for %d records at or above the threshold", len(mon.writes), enabled), oc
+	if len(mon.writes) < enabled || len(mon.writes) > enabled+enabledPoisoned {
+		return fmt.Sprintf("%d Write calls for %d records at or above the threshold (and %d more whose rendering panics)", len(mon.writes), enabled, enabledPoisoned), oc
 	}
 	seen := map[string]bool{}
 	lastG := ""
@@ -341,6 +373,10 @@ func runScenario(sc *scenario) (string, outcome) {
 			return fmt.Sprintf("record %s was written twice", id), oc
 		}
 		seen[id] = true
+		if o.poison > 0 {
+			oc.poisonWritten++
+			continue // a handler that contains the panic and writes something for this record: not judged
+		}
 		want := sc.alone(o)
 		got := w
 		if !o.direct {
@@ -361,6 +397,11 @@ func runScenario(sc *scenario) (string, outcome) {
 		}
 		if len(w) > 16<<10 {
 			oc.bigLine = true
+		}
+	}
+	for id, o := range byID {
+		if o.poison == 0 && o.level >= sc.threshold && !seen[id] {
+			return fmt.Sprintf("record %s was never written", id), oc
 		}
 	}
 	oc.interleaved = switches >= len(sc.scripts) // more switches than a purely sequential schedule would show
@@ -386,6 +427,9 @@ func TestScenarios(t *testing.T) {
 		}
 		if oc.ownTime {
 			ev.Label("observed:records_with_a_time_of_their_own_(Handler.Handle)")
+		}
+		if sc.poisoned {
+			ev.Label("some_values_panic_while_rendered_(caller_recovers)")
 		}
 		ev.LabelN("records_written", int64(oc.writes))
 		ev.Case(oc.interleaved && oc.derivedWrote && oc.bigLine, ev.Hash(sc.render(), fmt.Sprint(oc.writes)), sc.render)
